@@ -191,9 +191,22 @@ func (c *symCounter) Count(s string) int {
 // symbolic word counts. The text flags are snapshotted between the
 // classification and the document filters by running the same steps
 // ExtractContent runs.
+// c08Primer: an earlier, unrelated extraction in the same process (a page that
+// ends in retained text). The relation must hold for the page under test
+// whatever was distilled before.
+func c08Primer() {
+	long := strings.Repeat("plenty of words make this paragraph content ", 6)
+	pd := vx.ParseHTML("<html><head><title>P</title></head><body><div><img src=\"p.png\"><p>" + long + "</p><p>" + long + "</p></div></body></html>")
+	pce := NewContentExtractor(dom.QuerySelector(pd, "html"), nil, nil)
+	pce.ExtractContent()
+}
+
 func HarnessC08Pipeline() {
 	n := vx.Param("n", 3)
 	page, _ := c08Page(n)
+	if vx.Choose("primer", 2) == 1 {
+		c08Primer()
+	}
 	doc := vx.ParseHTML(page)
 	ce := NewContentExtractor(dom.QuerySelector(doc, "html"), nil, nil)
 	ce.WordCounter = &symCounter{memo: map[string]int{}, max: vx.Param("maxwc", 120)}
